@@ -396,7 +396,7 @@ impl Scenario for OdbRepack {
         16
     }
     fn cpu_limit_s(&self, _p: &str) -> u64 {
-        90
+        240
     }
     fn runs(&self, tier: Tier, _p: &str) -> u64 {
         super::tier_pick(tier, 3_000, 300_000)
@@ -445,7 +445,7 @@ impl Scenario for OdbRepack {
         fsx::configure(fsx::FsCfg { root: live.to_string_lossy().into_owned(), stamp: true, ..Default::default() });
         let mut cfg = ctx.rt_cfg();
         super::apply_swarm(&mut cfg, wv);
-        cfg.max_steps = 150_000; // a livelock must hit this budget long before the CPU limit, on any machine (ordinary runs take a few thousand steps)
+        cfg.max_steps = 600_000; // a livelock hits this budget after about 9 s of CPU on a quiet machine; the CPU limit is 240 s
         let sh = Arc::new(Shared::default());
         sh.judge_availability.store(slots_sufficient, std::sync::atomic::Ordering::SeqCst);
         let (sh2, uni2, w2, objects2, fixtures) = (sh.clone(), uni.clone(), w.clone(), objects.clone(), ctx.worker_dir.clone());
